@@ -285,8 +285,22 @@ def main(ctx):
         a = list(a)
         exp = sorted(a)
         calls = 0
-        for form in ("list", "array"):
-            if form == "array" and not a:
+        for form in ("list", "array", "u1", "u8", "i1", "f4", "bool"):
+            if form != "list" and not a:
+                continue
+            if form == "bool" and max(a) > 1:
+                continue
+            adt = {"array": "i8", "bool": "?"}.get(form, form)
+            if form not in ("list", "array"):
+                # other element types: same order relation, plain quicksort only
+                d = np.array(a, dtype=adt)
+                try:
+                    algorithm.quicksort(d)
+                except Exception as e:
+                    return rec.fail(case, "quicksort(%s array) raised %s: %s" % (adt, type(e).__name__, e))
+                calls += 1
+                if d.tolist() != np.sort(np.array(a, dtype=adt)).tolist():
+                    return rec.fail(case, "quicksort(%s array) left %r, expected %r" % (adt, d.tolist(), exp))
                 continue
             d = list(a) if form == "list" else np.array(a, dtype="i8")
             try:
@@ -415,7 +429,8 @@ def main(ctx):
         else:
             raise ValueError(ikind)
         haslen = ikind in ("list", "iterlen", "range")
-        total = {"none": None, "exact": n, "small": max(n - 2, 1), "large": n + 3}[totsel]
+        nitems = {"prange3": len(range(3, 3 + 2 * n + 1, 2)), "prange-neg": len(range(10, 10 - 3 * n - 1, -3))}.get(entry, n)
+        total = {"none": None, "exact": nitems, "small": max(nitems - 2, 1), "large": nitems + 3}[totsel]
         clk = Clock(prefix)
         old = P.time
         P.time = clk
@@ -432,6 +447,15 @@ def main(ctx):
             elif entry == "prange2":
                 g = P.prange(3, 3 + 2 * n, 2, **kw)
                 items = list(range(3, 3 + 2 * n, 2))
+                tracker = None
+            elif entry == "prange3":
+                # a step that does not divide the span, and a negative step
+                g = P.prange(3, 3 + 2 * n + 1, 2, **kw)
+                items = list(range(3, 3 + 2 * n + 1, 2))
+                tracker = None
+            elif entry == "prange-neg":
+                g = P.prange(10, 10 - 3 * n - 1, -3, **kw)
+                items = list(range(10, 10 - 3 * n - 1, -3))
                 tracker = None
             else:
                 fn = P.pbar if entry == "pbar" else P.PBar
@@ -468,7 +492,7 @@ def main(ctx):
 
     punits = []
     ns = ctx.pick([0, 1, 3], [0, 1, 2, 5])
-    for entry in ("pbar", "PBar", "prange", "prange2"):
+    for entry in ("pbar", "PBar", "prange", "prange2", "prange3", "prange-neg"):
         for ikind in (("list", "iterlen", "iter", "gen") if entry in ("pbar", "PBar") else ("range",)):
             if entry == "PBar" and ikind not in ("list", "gen"):
                 continue
